@@ -30,8 +30,10 @@ func show(t *testing.T, name string, h History) *Result {
 	return res
 }
 
+// TestDev is the self-test of the rig: a clean history stays clean, the directed histories of
+// the recorded findings are attributed to them (while the defects are in the tree) or are clean.
 func TestDev(t *testing.T) {
-	show(t, "plain", History{Steps: []Step{
+	res := show(t, "plain", History{Steps: []Step{
 		{Op: OpSubscribe, Sub: 0, Conn: 1, Key: 0},
 		{Op: OpSubscribe, Sub: 1, Conn: 2, Key: 0, Filter: FIn0, Shape: 1},
 		{Op: OpEvent, Period: 0, N: 1, K: 0},
@@ -41,36 +43,10 @@ func TestDev(t *testing.T) {
 		{Op: OpComplete, Period: 0},
 		{Op: OpDone, Period: 0},
 	}})
-	show(t, "f19", History{Steps: []Step{
-		{Op: OpSubscribe, Sub: 0, Conn: 1, Key: 0},
-		{Op: OpEvent, Period: 0, N: 1, K: 0},
-		{Op: OpComplete, Period: 0, Split: &Split{Point: PtComplete, Target: 0, Nested: []Step{{Op: OpUnsubscribe, Sub: 0}}}},
-	}})
-	show(t, "f20", History{Steps: []Step{
-		{Op: OpSubscribe, Sub: 0, Conn: 1, Key: 0, Split: &Split{Point: PtInit, Nested: []Step{{Op: OpUnsubscribe, Sub: 0}}}},
-	}})
-	show(t, "stale-done", History{Steps: []Step{
-		{Op: OpSubscribe, Sub: 0, Conn: 1, Key: 0},
-		{Op: OpUnsubscribe, Sub: 0},
-		{Op: OpSubscribe, Sub: 1, Conn: 1, Key: 0},
-		{Op: OpDone, Period: 0},
-		{Op: OpEvent, Period: 1, N: 1},
-	}})
-	show(t, "stale-start-err", History{Steps: []Step{
-		{Op: OpSubscribe, Sub: 0, Conn: 1, Key: 0, StartMode: StartBlock},
-		{Op: OpUnsubscribe, Sub: 0},
-		{Op: OpSubscribe, Sub: 1, Conn: 1, Key: 0},
-		{Op: OpReleaseStart, Period: 0, Err: true},
-		{Op: OpEvent, Period: 1, N: 1},
-	}})
-	show(t, "stale-start-ok", History{Steps: []Step{
-		{Op: OpSubscribe, Sub: 0, Conn: 1, Key: 0, StartMode: StartBlock},
-		{Op: OpUnsubscribe, Sub: 0},
-		{Op: OpSubscribe, Sub: 1, Conn: 1, Key: 0},
-		{Op: OpReleaseStart, Period: 0},
-		{Op: OpEvent, Period: 1, N: 1},
-	}})
-	show(t, "sync", History{Steps: []Step{
+	if len(res.Violations) != 0 || res.Inconclusive != "" {
+		t.Fatalf("plain history: %v %s", res.Violations, res.Inconclusive)
+	}
+	res = show(t, "sync", History{Steps: []Step{
 		{Op: OpSubscribe, Sub: 0, Key: 1, Sync: true, HB: true},
 		{Op: OpSubscribe, Sub: 1, Conn: 2, Key: 1, Hook: HookEmit},
 		{Op: OpHeartbeat, Period: 0},
@@ -78,9 +54,27 @@ func TestDev(t *testing.T) {
 		{Op: OpEvent, Period: 0, N: 3, K: 2, Kind: EvMalformed},
 		{Op: OpShutdown},
 	}})
+	if len(res.Violations) != 0 || res.Inconclusive != "" || res.SplitReached != 1 {
+		t.Fatalf("sync history: %v %s reached=%d", res.Violations, res.Inconclusive, res.SplitReached)
+	}
+	for _, id := range FindingIDs {
+		res := show(t, id, ProbeHistory(id))
+		if len(res.Violations) > 0 && Attribute(res) != id {
+			t.Fatalf("probe of %s fails in another way: %v", id, Unexplained(res))
+		}
+	}
+	if msg := SoloSanity(); msg != "" {
+		t.Fatal(msg)
+	}
 }
 
+// TestDevRand, TestDevLen and TestDevSolo are development aids (generator statistics, soak runs
+// outside the driver): SUBRIG_DEV=1 go test -tags verif -run TestDevRand ./internal/subrig/ -rapid.checks=N
+// STEER=0 switches the steering around recorded findings off, BIAS=13 selects the C13 generator.
 func TestDevRand(t *testing.T) {
+	if os.Getenv("SUBRIG_DEV") == "" {
+		t.Skip("development aid; set SUBRIG_DEV=1")
+	}
 	stats := map[string]int{}
 	steer := os.Getenv("STEER") != "0"
 	bias := BiasC12
@@ -125,7 +119,11 @@ func TestDevRand(t *testing.T) {
 	fmt.Println("cases", n, "soloRuns", SoloRuns)
 }
 
+// TestDevOne runs the history given as JSON in $H and prints the trace.
 func TestDevOne(t *testing.T) {
+	if os.Getenv("H") == "" {
+		t.Skip("set H to a history in JSON")
+	}
 	var h History
 	if err := json.Unmarshal([]byte(os.Getenv("H")), &h); err != nil {
 		t.Fatal(err)
@@ -135,6 +133,9 @@ func TestDevOne(t *testing.T) {
 }
 
 func TestDevSolo(t *testing.T) {
+	if os.Getenv("SUBRIG_DEV") == "" {
+		t.Skip("development aid; set SUBRIG_DEV=1")
+	}
 	for i := 0; i < 5; i++ {
 		t0 := time.Now()
 		it := soloRun(0, FIn0, EventPayload(i, 0, ""))
@@ -145,6 +146,9 @@ func TestDevSolo(t *testing.T) {
 }
 
 func TestDevLen(t *testing.T) {
+	if os.Getenv("SUBRIG_DEV") == "" {
+		t.Skip("development aid; set SUBRIG_DEV=1")
+	}
 	hist := map[int]int{}
 	ops := map[string]int{}
 	rapid.Check(t, func(rt *rapid.T) {
